@@ -9,7 +9,7 @@ for d in sorted(glob.glob('/verif/seeded/*/')):
     except Exception:
         continue
     ev = m.get('owning_check_quick', '')
-    caught = 'exit=1' in ev
+    caught = 'exit=1 ' in ev
     summ = (m.get('summary') or '').replace('|', '/').replace('\n', ' ')
     need = (m.get('needs_to_manifest') or '').replace('|', '/').replace('\n', ' ')
     extra = m.get('also_caught_by', '')
